@@ -213,6 +213,7 @@ func harnesses() []harness {
 					rr.add("reader GetImmutable(%d): %v", lv, err)
 					return
 				}
+				observe("reader-got-v%d", it.Version())
 				content := c06Contents[3]
 				if it.Version() == 4 {
 					content = v4A
@@ -407,6 +408,42 @@ func harnesses() []harness {
 			}
 			return []func(){mk(&r1, "a", "c"), mk(&r2, "c", "b")}, func() string { return strings.Join(append(r1.lines, r2.lines...), "; ") }
 		}},
+		{"H7 writer(Remove,Set,SaveVersion) || reader(GetImmutable(4) as soon as it exists: Get, Has, Iterator)", func(cfg c06Cfg) ([]func(), func() string) {
+			t := prelude(cfg)
+			var rw, rr rec
+			reader := func() {
+				// a version that can be obtained has the contents of that version, however early it is asked for
+				// (MutableTree.GetVersioned is not used here: it consults the writer's working tree and is not among
+				// the reader operations of the statement)
+				it, err := t.GetImmutable(4)
+				if err != nil {
+					observe("v4-not-yet")
+					return // not committed yet
+				}
+				if lv, _ := t.GetLatestVersion(); lv == 4 {
+					observe("v4-published")
+				} else {
+					observe("v4-readable-before-published")
+				}
+				for _, k := range []string{"c", "b", "a"} {
+					v, err := it.Get([]byte(k))
+					expectGet(&rr, "reader v4.Get("+k+")", v, err, v4A, k)
+				}
+				h, err := it.Has([]byte("b"))
+				if err != nil || h {
+					rr.add("reader v4.Has(b) = %v, %v", h, err)
+				}
+				all, err := iterAll(it)
+				if err != nil || !sameMap(all, v4A) {
+					rr.add("reader v4 iteration = %v (err %v), version content %v", all, err, v4A)
+				}
+			}
+			return []func(){writerA(t, &rw), reader}, func() string {
+				var re rec
+				epilogue(&re, t, map[int64]map[string]string{3: c06Contents[3], 4: v4A})
+				return strings.Join(append(append(rw.lines, rr.lines...), re.lines...), "; ")
+			}
+		}},
 	}
 }
 
@@ -421,6 +458,7 @@ type execTrace struct {
 }
 
 func runSchedule(h harness, cfg c06Cfg, prefix []int32) (execTrace, string) {
+	obsCur = obsCur[:0]
 	bodies, check := h.build(cfg)
 	vrt.Run(bodies, prefix)
 	n := int(vrt.NPoints)
@@ -442,7 +480,14 @@ type schedStats struct {
 	Violations []schedViolation  `json:"violations"`
 	Races      map[string]string `json:"races"` // signature -> first schedule
 	Switches   int               `json:"executions_with_a_preemption"`
+	// Observed: what the threads saw (not a verdict): distinct values show that the schedules really differ
+	Observed map[string]int `json:"observed"`
 }
+
+// obsCur collects the observations of the schedule in flight (only the thread holding the token appends).
+var obsCur []string
+
+func observe(format string, a ...any) { obsCur = append(obsCur, fmt.Sprintf(format, a...)) }
 
 type schedViolation struct {
 	Harness  string  `json:"harness"`
@@ -481,6 +526,10 @@ func exploreSched(h harness, cfg c06Cfg, bound int, prefix []int32, st *schedSta
 			key = bad
 		}
 		st.Outcomes[key]++
+		if st.Observed == nil {
+			st.Observed = map[string]int{}
+		}
+		st.Observed[strings.Join(obsCur, ",")]++
 		if bad != "" && len(st.Violations) < 50 {
 			st.Violations = append(st.Violations, schedViolation{h.name, cfg, append([]int32{}, tr.chosen...), append([]int32{}, tr.tids...), bad})
 		}
@@ -595,6 +644,9 @@ func init() {
 		var jobs []job
 		skipped := []string{}
 		for hi := range hs {
+			if only := os.Getenv("VERIF_C06_ONLY"); only != "" && !strings.HasPrefix(hs[hi].name, only) {
+				continue // development aid
+			}
 			if strings.HasPrefix(hs[hi].name, "H4") && os.Getenv("VERIF_H4") != "1" {
 				skipped = append(skipped, hs[hi].name+": the export.go rewrite did not apply to this tree")
 				continue
@@ -715,6 +767,12 @@ func init() {
 			for o, n := range r.st.Outcomes {
 				agg.Outcomes[o] += n
 			}
+			if agg.Observed == nil {
+				agg.Observed = map[string]int{}
+			}
+			for o, n := range r.st.Observed {
+				agg.Observed[o] += n
+			}
 			agg.Violations = append(agg.Violations, r.st.Violations...)
 			for s, w := range r.st.Races {
 				agg.Races[s] = w
@@ -725,7 +783,7 @@ func init() {
 			b := bounds[ji]
 			logp := logps[ji]
 			name := fmt.Sprintf("%s cache=%d fast=%v cold=%v race=%v bound=%d", hs[j.hi].name, cfgs[j.ci].Cache, cfgs[j.ci].Fast, cfgs[j.ci].Cold, j.race, b)
-			perHarness[name] = map[string]any{"schedules": agg.Execs, "max_scheduling_points": agg.MaxPoints, "distinct_outcomes": len(agg.Outcomes), "schedules_with_race_report": len(agg.Races)}
+			perHarness[name] = map[string]any{"schedules": agg.Execs, "max_scheduling_points": agg.MaxPoints, "distinct_outcomes": len(agg.Outcomes), "observations": agg.Observed, "schedules_with_race_report": len(agg.Races)}
 			total.Execs += agg.Execs
 			if len(res.Samples) < 8 && len(agg.Violations) == 0 {
 				res.Samples = append(res.Samples, map[string]any{"harness": name, "schedules": agg.Execs})
@@ -771,7 +829,7 @@ func init() {
 			"explanation_c06": "every schedule (choice sequence at lock acquisitions and storage calls) with at most the stated number of preemptions is executed on the real code; the -race build runs the same enumeration with the race detector active inside each schedule (the scheduler's hand-off uses raw futex calls from norace code and adds no happens-before edge)"}
 		res.Assumptions = []string{
 			"scheduling points: every Lock/RLock of the sync primitives used by iavl (rebuilt against the shim) and every storage call; code between two points runs atomically in the explorer (races inside such blocks are the race detector's job)",
-			"harnesses H1-H6: 2-3 threads, <= 3 operations each, one writer; H4 (export pinning vs pruning: the exporter goroutine and its channel run under the scheduler) and H5 (background pruning loop, SetCommitting/UnsetCommitting) use the rewritten export.go / nodedb.go of the sched build and are skipped (recorded in skipped_harnesses) if the rewrite does not apply to the current tree",
+			"harnesses H1-H7: 2-3 threads, <= 3 operations each, one writer; H4 (export pinning vs pruning: the exporter goroutine and its channel run under the scheduler) and H5 (background pruning loop, SetCommitting/UnsetCommitting) use the rewritten export.go / nodedb.go of the sched build and are skipped (recorded in skipped_harnesses) if the rewrite does not apply to the current tree",
 			"the storage is check/vstore (MemDB-like locking, snapshot iterators)",
 		}
 		return res
